@@ -39,6 +39,8 @@ class Net:
         self.close_latency = cfg.get("close_latency", 0.0)
         self.fault_rates = cfg.get("fault_rates", {})
         self.peer_factory = peer_factory  # (endpoint) -> Peer or None
+        self.attempts = 0
+        self._once_done = False
 
     # -- helpers ------------------------------------------------------------
     def next_op(self, kind, wire_id, *info):
@@ -56,6 +58,9 @@ class Net:
             elif f["kind"] == "auto" and kind in FAULTS_FOR:
                 opts = FAULTS_FOR[kind]
                 fault = opts[f.get("variant", 0) % len(opts)]
+        elif self.cfg.get("fault_once") in FAULTS_FOR.get(kind, ()) and not self._once_done:
+            self._once_done = True
+            fault = self.cfg["fault_once"]
         elif self.fault_rates and kind in FAULTS_FOR:
             r = w.rng("fault")
             for k in FAULTS_FOR[kind]:
@@ -96,6 +101,24 @@ class Net:
         deadline = None if timeout is None else start + timeout
         lat = self.lat("connect")
         peer = self.peer_factory(endpoint)
+        # scripted outcome per connection attempt (C20)
+        script = self.cfg.get("connect_script")
+        tls_outcome = None
+        if script is not None:
+            i = self.attempts
+            self.attempts += 1
+            oc = script[i] if i < len(script) else "ok"
+            w.log("attempt", i, oc)
+            if oc == "ce_tcp":
+                fault = "connect_error"
+            elif oc == "ct_tcp":
+                fault = "connect_timeout" if deadline is not None else "connect_error"
+            elif oc == "other_tcp":
+                fault = "other"
+            elif oc in ("ce_tls", "ct_tls", "other_tls"):
+                tls_outcome = oc
+            if fault:
+                w.stats["fault:" + fault] += 1
         if fault == "connect_timeout" and deadline is None:
             fault = "connect_error"
         if fault == "connect_timeout" or (deadline is not None and start + lat > deadline):
@@ -112,9 +135,12 @@ class Net:
             yield t
         if fault == "connect_error":
             raise WireError("connect_error", "injected")
+        if fault == "other":
+            raise WireError("other", "injected")
         if peer is None:
             raise WireError("connect_error", "connection refused")
         wire = Wire(self, endpoint, peer)
+        wire.tls_outcome = tls_outcome
         return wire
 
 
@@ -371,6 +397,11 @@ class Wire:
         if self.state != "open":
             yield w.now
             raise WireError("tls_error", "closed locally")
+        oc = getattr(self, "tls_outcome", None)
+        if oc is not None:
+            self.tls_outcome = None
+            fault = {"ce_tls": "tls_error", "ct_tls": "tls_timeout", "other_tls": "other"}[oc]
+            w.stats["fault:" + fault] += 1
         if fault == "tls_timeout" and deadline is None:
             fault = "tls_error"
         if fault == "tls_timeout" or (deadline is not None and t > deadline):
@@ -387,6 +418,8 @@ class Wire:
             raise WireError("tls_error", "closed locally")
         if fault == "tls_error":
             raise WireError("tls_error", "injected")
+        if fault == "other":
+            raise WireError("other", "injected")
         self._run_peer()
         sel = self.peer.on_tls(w.now, sni, list(offered or ()))
         if sel is False:
